@@ -170,28 +170,41 @@ def _explain(ctx, errs):
 
 def _paths(ctx):
     """Second pass (coverage evidence only): which division path / correction branch the generated unsigned division
-    lines exercise.  The driver's `u path` / `u path64` ops recompute the dispatch decisions of the model."""
+    lines exercise, PER ENTRY POINT (Div, Mod, DivMod and the three ...64 forms are six separate copies of the dispatch
+    in the source; each copy has to reach each path).  The driver's `u path` / `u path64` ops recompute the dispatch
+    decisions of the model; the tag is `<entry point>:<path>`."""
     import re
     if ctx.replay or "harness" not in ctx.harness_bin:
         return
     n = 200000 if ctx.tier == "quick" else 2000000
     lines = ctx.gen("int128", ctx.seed * 1000003, n)   # same stream as the first shard(s) of the diff run
+    lines = ctx.corpus("int128") + lines
     rx = re.compile(r"^u (div|mod|divmod)(64)? ")
-    plines = [rx.sub(lambda m: "u path64 " if m.group(2) else "u path ", l) for l in lines if rx.match(l)]
+    ops, plines = [], []
+    for l in lines:
+        m = rx.match(l)
+        if m:
+            ops.append(m.group(1) + (m.group(2) or ""))
+            plines.append(rx.sub("u path64 " if m.group(2) else "u path ", l))
     outs = ctx.run_model("drv_c01", plines)
     if outs is None:
         ctx.lean_problems.append("path pass of drv_c01 failed")
         return
-    for o in outs:
+    for op, o in zip(ops, outs):
         t = re.sub(r"shift=\d+", lambda m: "shift=" + ("0" if m.group(0) == "shift=0" else "1..16"), o)
+        t = op + ":" + t.split(":", 1)[1] if ":" in t else op + ":" + t
         ctx.tags[t] = ctx.tags.get(t, 0) + 1
-    ctx.rules.append("tag histogram: path pass over the %d unsigned division lines of a %d-line stream "
-                     "(dispatch path; l1/l2 = number of corrections in loop1/loop2 of divmod128by64; corr/nocorr = "
-                     "final correction of divmod128by128; dec = estimate decremented)" % (len(plines), n))
-    need = ["div:bin", "div:by1", "div:pow2", "div:u64", "div:lt", "div:eq", "div:panic", "div:by64lo", "div:by64hi",
-            "div:by128,corr", "div:by128,nocorr", "div64:bin", "div64:by64lo", "div64:by64hi", "div64:pow2",
-            "l1=1", "l1=2", "l2=1", "l2=2"]
-    missing = [k for k in need if not any(k in t for t in ctx.tags)]
+    ctx.rules.append("tag histogram: path pass over the %d unsigned division lines of the corpus and a %d-line stream, "
+                     "per entry point (dispatch path; l1/l2 = number of corrections in loop1/loop2 of divmod128by64; "
+                     "corr/nocorr = final correction of divmod128by128; dec = estimate decremented)" % (len(plines), n))
+    need128 = ["bin", "by1", "pow2", "u64", "lt", "eq", "panic", "by64lo", "by64hi", "by128,corr", "by128,nocorr",
+               "l1=1", "l1=2", "l2=1", "l2=2"]
+    need64 = ["bin", "by1", "pow2", "u64", "panic", "by64lo", "by64hi", "l1=1", "l1=2", "l2=1", "l2=2"]
+    missing = []
+    for op, need in (("div", need128), ("mod", need128), ("divmod", need128),
+                     ("div64", need64), ("mod64", need64), ("divmod64", need64)):
+        mine = [t[len(op) + 1:] for t in ctx.tags if t.startswith(op + ":")]
+        missing += [op + ":" + k for k in need if not any(k in t for t in mine)]
     ctx.extra["division_paths_missing"] = missing
     # A self-check of the generator, not a property of the code: a tree with another (behaviour-preserving) value of
     # divBinaryShiftThreshold legitimately has other reachable paths, so it only fails the run on the reference tree.
